@@ -725,7 +725,7 @@ impl XmlAttribute {
     pub fn empty(name: &str, context: &Context) -> error::Result<Rc<XmlItem>> {
         let xml = format!("{}=''", name);
         let (rest, tree) = xml_parser::attribute(xml.as_str())?;
-        if rest.is_empty() {
+        if rest.is_empty() && is_same_name(attribute_name(&tree.name), name) {
             XmlAttribute::node(&tree, None, context)
         } else {
             Err(error::Error::InvalidData(name.to_string()))
@@ -2347,7 +2347,8 @@ impl XmlElement {
     pub fn empty(name: &str, context: &Context) -> error::Result<Rc<XmlItem>> {
         let xml = format!("<{} />", name);
         let (rest, tree) = xml_parser::element(xml.as_str())?;
-        if rest.is_empty() {
+        // the whole of `name` must have been read as the element's name
+        if rest.is_empty() && tree.attributes.is_empty() && is_same_name(qname(&tree.name), name) {
             XmlElement::node(&tree, None, context)
         } else {
             Err(error::Error::InvalidData(name.to_string()))
@@ -3399,7 +3400,7 @@ impl XmlProcessingInstruction {
     pub fn empty(target: &str, context: &Context) -> error::Result<Rc<XmlItem>> {
         let xml = format!("<?{}?>", target);
         let (rest, tree) = xml_parser::pi(xml.as_str())?;
-        if rest.is_empty() {
+        if rest.is_empty() && tree.target == target && tree.value.is_none() {
             Ok(XmlProcessingInstruction::node(&tree, None, context))
         } else {
             Err(error::Error::InvalidData(target.to_string()))
@@ -4358,6 +4359,14 @@ where
         Ok(result)
     } else {
         Err(error::Error::InvalidData(new.to_string()))
+    }
+}
+
+/// Does the parsed (local name, prefix) pair spell exactly `name`?
+fn is_same_name(parsed: (String, Option<String>), name: &str) -> bool {
+    match parsed {
+        (local_name, Some(prefix)) => format!("{}:{}", prefix, local_name) == name,
+        (local_name, None) => local_name == name,
     }
 }
 
